@@ -132,7 +132,11 @@ class ASTBuilder(BasicBuilder):
 
     @Builder.builder(ast.Module)
     def build_module(self, _, children: List[TreeNode]):
-        return Module(tuple(children))
+        return Module(
+            tuple(children),
+            allow_list_edits=self.options.allow_list_edits,
+            allow_list_edits_when_same_length=self.options.allow_list_edits_when_same_length
+        )
 
     @Builder.expander(ast.List)
     @Builder.expander(ast.Tuple)
@@ -155,7 +159,11 @@ class ASTBuilder(BasicBuilder):
 
     @Builder.builder(ast.Assign)
     def build_assign(self, _, children):
-        return Assignment(targets=ListNode(children[:-1]), value=children[-1])
+        return Assignment(targets=ListNode(
+            children[:-1],
+            allow_list_edits=self.options.allow_list_edits,
+            allow_list_edits_when_same_length=self.options.allow_list_edits_when_same_length
+        ), value=children[-1])
 
     @Builder.builder(ast.Name)
     def build_name(self, node: ast.Name, _):
@@ -184,7 +192,11 @@ class ASTBuilder(BasicBuilder):
             func_name.quoted = False
         return Call(
             func_name,
-            CallArguments(children[1:]),  # type: ignore
+            CallArguments(  # type: ignore
+                children[1:],
+                allow_list_edits=self.options.allow_list_edits,
+                allow_list_edits_when_same_length=self.options.allow_list_edits_when_same_length
+            ),
             CallKeywords(())
         )
 
@@ -198,7 +210,11 @@ class ASTBuilder(BasicBuilder):
             from_name = StringNode("", quoted=False)
         else:
             from_name = StringNode(node.module, quoted=False)
-        return Import(names=ListNode(children), from_name=from_name)
+        return Import(names=ListNode(
+            children,
+            allow_list_edits=self.options.allow_list_edits,
+            allow_list_edits_when_same_length=self.options.allow_list_edits_when_same_length
+        ), from_name=from_name)
 
     @Builder.builder(ast.alias)
     def build_alias(self, node: ast.alias, _):
